@@ -700,19 +700,26 @@ func c16Timeout(r *Run) {
 	T := r.T
 	v := []primitive.ProtocolVersion{primitive.ProtocolVersionDse2, primitive.ProtocolVersionDse1, primitive.ProtocolVersion4, primitive.ProtocolVersion5}[T.Draw("version", 4)]
 	RT := []time.Duration{12 * time.Second, 2 * time.Second, 500 * time.Millisecond}[T.Draw("readTimeout", 3)]
-	mode := T.Draw("mode", 4) // 0 silence, 1 pages with gaps < RT then silence, 2 response just before RT, 3 response just after RT
+	// 0 silence, 1 pages with gaps < RT then silence, 2 response just before RT, 3 response just after RT,
+	// 4 the peer stops READING after the handshake while the client has more to send than the link holds:
+	//   the writes block, and every request (the one being written and those queued behind it) still has to
+	//   fail with a timeout error one read timeout after it was sent
+	mode := T.Draw("mode", 5)
 	if !v.IsDse() && mode == 1 {
 		mode = 0
 	}
 	lat := ms([]int{0, 3}[T.Draw("latency", 2)])
 	opts := LinkOpts{Latency: lat, ChunkReads: T.Bool("chunkReads", 0.5)}
+	if mode == 4 {
+		opts.Capacity = 256
+	}
 	pages := 2 + T.Draw("pages", 4)
 	gap := time.Duration(3+T.Draw("gap10", 6)) * RT / 10 // 0.3 .. 0.8 RT
 	eps := time.Millisecond
 	K := 1 + T.Draw("concurrent", 3)
 	r.Config["version"] = v.String()
 	r.Config["readTimeout"] = RT.String()
-	r.Config["mode"] = []string{"silence", "paged-then-silence", "just-before", "just-after"}[mode]
+	r.Config["mode"] = []string{"silence", "paged-then-silence", "just-before", "just-after", "peer-stops-reading"}[mode]
 	r.Config["latency"] = lat.String()
 	ctx, cancel := context.WithCancel(context.Background())
 	a, b := r.Net.Pair("L", r.Net.NewClientAddr(), mustAddr("10.0.0.2:9042"), opts)
@@ -746,6 +753,10 @@ func c16Timeout(r *Run) {
 		r.Yield("hs.joined")
 		if err != nil {
 			return
+		}
+		if mode == 4 {
+			b.StallIncoming(1000 * time.Hour)
+			r.Faults["peer_stops_reading"]++
 		}
 		r.Go("responder", func() {
 			for {
@@ -788,7 +799,11 @@ func c16Timeout(r *Run) {
 				o := &obs{tag: fmt.Sprintf("q%d", i)}
 				all = append(all, o)
 				o.t0 = r.Now()
-				req, err := cc.Send(queryFrame(v, client.ManagedStreamId, o.tag))
+				q := o.tag
+				if mode == 4 {
+					q = o.tag + "|" + strings.Repeat("x", 1000) // several times what the link holds
+				}
+				req, err := cc.Send(queryFrame(v, client.ManagedStreamId, q))
 				r.Yield("sender.sent")
 				if err != nil || req == nil {
 					o.endErr = err
@@ -832,7 +847,7 @@ func c16Timeout(r *Run) {
 	for _, o := range all {
 		isTimeout := o.endErr != nil && strings.Contains(o.endErr.Error(), "timed out")
 		switch mode {
-		case 0, 3:
+		case 0, 3, 4:
 			want := o.t0 + RT
 			if !isTimeout {
 				r.Violate(P, "timeout", "no-timeout-error", "mode %s: request %s sent at %v ended at %v with err=%v (closed without error: %v); expected a timeout error", r.Config["mode"], o.tag, o.t0, o.endAt, o.endErr, o.closedNil)
@@ -943,6 +958,22 @@ func c16Multi(r *Run) {
 			return
 		}
 		srv = s0
+		if !useAcceptAny && T.Bool("extraAcceptor", 0.4) {
+			// connections obtained through Accept stay queued for AcceptAny: somebody drains that queue
+			// while connections come and go
+			at := st.task("acceptor")
+			wg.Add(1)
+			r.Go(at.name, func() {
+				defer func() { at.done = true; wg.Done() }()
+				for k := 0; k < 2*C+2; k++ {
+					var err error
+					at.call(r, "Server.AcceptAny", func() { _, err = srv.AcceptAny() })
+					if err != nil {
+						return
+					}
+				}
+			})
+		}
 		for i := 0; i < C; i++ {
 			i := i
 			ct := st.task(fmt.Sprintf("client%d", i))
